@@ -49,6 +49,7 @@ inductive Op where
   | reload (target : Nat) (n : Int)     -- reload_object(target); its create() does set_heart_beat(n) again
   | living                              -- enable_commands()
   | burn                                -- use up evaluation cost
+  | mv (dest : Nat)                     -- move_object (dest): this object moves (out of its carrier, if any) into dest
   | rp                                  -- replace_program ("/c11/base"): the inherited program without heart_beat()
   deriving Repr, BEq
 
@@ -69,6 +70,7 @@ structure World where
   living : List Nat := []               -- O_ENABLE_COMMANDS
   cg : Option Nat := none               -- command_giver
   ec : Bool := true                     -- eval_cost == CONFIG_INT (__MAX_EVAL_COST__)
+  restrict : Option Nat := none         -- restrict_destruct (set while move_or_destruct() of an item runs)
   rp : List Nat := []                   -- obj_list_replace (head = newest entry)
   replaced : List Nat := []             -- objects whose program has been replaced
   crashed : Bool := false
@@ -141,10 +143,20 @@ def errorHandler (w : World) : World :=
   | some _ => NV.Gen.C11.errBlock.foldl errStmt w
   | none => w
 
+/-- error_handler from its first statement: `reset_destruct_object_limits ()` (restrict_destruct = 0), ..., the heart-beat
+    switch-off -/
+def errorEntry (w : World) : World := errorHandler { w with restrict := none }
+
 def isItem (w : World) (x : Nat) : Bool := w.inv.any (fun p => p.1 == x)
 
 /-- ob->contains of carrier c, front to back -/
 def itemsOf (w : World) (c : Nat) : List Nat := (w.inv.filter (fun p => p.2 == c && p.1 != c)).map (·.1)
+
+/-- src/simulate.c destruct_object: `if (restrict_destruct && restrict_destruct != ob) error (...)` -/
+def restricted (w : World) (t : Nat) : Bool :=
+  match w.restrict with
+  | some r => r != t
+  | none => false
 
 /-- the two heart-beat relevant statements at the end of destruct_object -/
 def leafPhase (t : Nat) (w : World) : Nat → World
@@ -170,6 +182,7 @@ def stepOpBasic (w : World) (self : Nat) (op : Op) : World × List Ev × Status 
     else (w, [.query self t (queryHeartBeat w t)], .ok)
   | .dest t =>
     if !w.alive t || t < 2 then (w, [.destNone self t], .ok)
+    else if restricted w t then (w, [.errR], .err)
     else (destructLeaf w t, [.dest self t], if (destructLeaf w t).alive self then .ok else .stop)
   | .clone new kind n =>
     if w.known.contains new then (w, [.cloneDup self new], .ok)
@@ -187,6 +200,10 @@ def stepOpBasic (w : World) (self : Nat) (op : Op) : World × List Ev × Status 
       ({ w with inv := (i, self) :: w.inv }, [.into i self], .ok)
     else (w, [.intoNone i self], .ok)
   | .cerr => (w, [.caught self], .ok)
+  | .mv x =>
+    if w.alive x && !(x < 2) && !(self < 2) && x != self && !isItem w x && (itemsOf w self).isEmpty then
+      ({ w with inv := (self, x) :: w.inv.filter (fun p => p.1 != self) }, [.moved self x], .ok)
+    else (w, [.movedNone self x], .ok)
   | .reload t n =>
     if !w.alive t || t < 2 then (w, [.reloadNone self t], .ok)
     else
@@ -214,25 +231,28 @@ def runOpsBasic (w : World) (self : Nat) : List Op → World × List Ev × Statu
     | (w1, evs, st) => (w1, evs, st)
 
 
-/-- operations that the scripted move_or_destruct() hooks perform (no destruct - restrict_destruct would refuse it -,
-    no inventory change; an uncaught error leaves destruct_object right there) -/
+/-- operations that the scripted move_or_destruct() hooks perform (destruct of anything but the item itself is refused by
+    restrict_destruct with an error; an uncaught error leaves destruct_object right there) -/
 def hookAllowed : Op → Bool
-  | .shb _ _ | .q _ | .clone _ _ _ | .flag | .hbs | .err | .cerr => true
+  | .shb _ _ | .q _ | .clone _ _ _ | .flag | .hbs | .err | .cerr | .dest _ | .mv _ => true
   | _ => false
 
-/-- one iteration of `while (ob->contains)`: apply move_or_destruct() in the item (its script may touch any heart beat,
-    including the dying carrier's), then `if (otmp == ob->contains) destruct_object (otmp)`.  "An error here will not
-    leave destruct() in an inconsistent stage": it propagates to the caller of destruct_object; the carrier and the
-    remaining items stay as they are (status `.err`, later items are not visited) -/
+/-- one iteration of `while (ob->contains)`: `restrict_destruct = item`, apply move_or_destruct() in the item (its script may
+    touch any heart beat, including the dying carrier's, destruct ITSELF - anything else is refused with an error - or move
+    away), `restrict_destruct = <saved>`, then `if (otmp == ob->contains) destruct_object (otmp)`.  "An error here will not
+    leave destruct() in an inconsistent stage": it propagates to the caller of destruct_object (error_handler resets
+    restrict_destruct); the carrier and the remaining items stay as they are (status `.err`, later items are not visited) -/
 def hookStep (carrier : Nat) (acc : World × List Ev × Status) (i : Nat) : World × List Ev × Status :=
   if acc.2.2 != .ok then acc
   else if !acc.1.alive i then acc
   else
-    match runOpsBasic acc.1 i ((acc.1.hooks i).filter hookAllowed) with
+    match runOpsBasic { acc.1 with restrict := some i } i ((acc.1.hooks i).filter hookAllowed) with
     | (w1, e1, .err) => (w1, acc.2.1 ++ .hook i carrier :: e1, .err)
     | (w1, e1, _) =>
-      if w1.alive i then (destructLeaf w1 i, acc.2.1 ++ .hook i carrier :: e1 ++ [.hookEnd i], .ok)
-      else (w1, acc.2.1 ++ .hook i carrier :: e1 ++ [.hookGone i], .ok)
+      if !w1.alive i then ({ w1 with restrict := none }, acc.2.1 ++ .hook i carrier :: e1 ++ [.hookGone i], .ok)
+      else if (itemsOf w1 carrier).contains i then
+        (destructLeaf { w1 with restrict := none } i, acc.2.1 ++ .hook i carrier :: e1 ++ [.hookEnd i], .ok)
+      else ({ w1 with restrict := none }, acc.2.1 ++ .hook i carrier :: e1 ++ [.hookMoved i], .ok)
 
 def hooksPhase (w : World) (t : Nat) : World × List Ev × Status := (itemsOf w t).foldl (hookStep t) (w, [], .ok)
 
@@ -258,6 +278,7 @@ def stepOp (w : World) (self : Nat) (op : Op) : World × List Ev × Status :=
   match op with
   | .dest t =>
     if !w.alive t || t < 2 then (w, [.destNone self t], .ok)
+    else if restricted w t then (w, [.errR], .err)
     else
       match destructFull w t with
       | (w', evs, .ok) => (w', evs ++ [.dest self t], if w'.alive self then .ok else .stop)
@@ -334,7 +355,10 @@ def round (sc : Scripts) : Nat → World → World × List Ev
           let w1 := callSetup { w with hbs := w.hbs.set w.idx.toNat { hb with ticks := b.2.2 },
                                        nb := fun o => if o = hb.ob then w.nb o + 1 else w.nb o } hb.ob
           match runOps w1 hb.ob (sc hb.ob (w.nb hb.ob)) with
-          | (w2, evs, .err) => (errorHandler w2, .beat hb.ob :: ctxEv w1 hb.ob :: evs ++ [.tickAbort])
+          | (w2, evs, .err) =>
+            -- longjmp to backend()'s recovery point: restore_context() puts back the command_giver saved by
+            -- save_context() right after clear_state(), i.e. 0
+            ({ errorEntry w2 with cg := none }, .beat hb.ob :: ctxEv w1 hb.ob :: evs ++ [.tickAbort])
           | (w2, evs, _) =>
             let w2 := callAfter w2 hb.ob
             if (cursorStep w2).2 then (finish (cursorStep w2).1, .beat hb.ob :: ctxEv w1 hb.ob :: evs ++ [.beatEnd hb.ob, .tickEnd])
@@ -372,12 +396,37 @@ def tickCore (sc : Scripts) (w : World) : World × List Ev :=
     | (w', evs) => (w', begin :: evs)
   else (leave w (NV.Gen.C11.roundSkip w.idx w.todo (curInt w)), [begin, .tickEnd])
 
-/-- one pass of the backend() loop with the timer fired: pending program replacements, then call_heart_beat -/
+/-- harness rule: at most this many further passes with a round inside one `tick` command -/
+def maxPass : Nat := 5
+
+/-- the passes of the loop that follow a pass left by an error: remove_destructed_objects() -> replace_programs(), then
+    `if (HEART_BEAT_FLAG()) call_heart_beat ()` - the timer may have fired during the abandoned round (op `flag`), in
+    which case the next tick is served right away -/
+def morePasses (sc : Scripts) : Nat → World → World × List Ev
+  | 0, w =>
+    let a := applyRp w
+    if a.1.flag then ({ a.1 with flag := false }, a.2 ++ [.passLimit]) else a
+  | f + 1, w =>
+    let a := applyRp w
+    if a.1.flag then
+      let r := tickCore sc a.1
+      if r.2.contains .tickAbort then
+        let n := morePasses sc f r.1
+        (n.1, a.2 ++ r.2 ++ n.2)
+      else (r.1, a.2 ++ r.2)
+    else a
+
+/-- one `tick` of a case = backend() entered, one timer tick, backend() left through the cycle hook:
+    clear_state() (`command_giver = 0`), the start-up `call_heart_beat ()` (timer_flags still 0: no round, printed by the
+    harness as `tickbegin off` / `tickend`), then the loop: remove_destructed_objects() -> replace_programs(), the poll
+    (the timer tick arrives, timer_flags as configured), `if (HEART_BEAT_FLAG()) call_heart_beat ()`.  An uncaught error
+    sends the loop round again (`morePasses`) until a pass reaches the hook. -/
 def tick (sc : Scripts) (w : World) : World × List Ev :=
-  match applyRp w with
-  | (w1, e1) =>
-    match tickCore sc w1 with
-    | (w2, e2) => (w2, e1 ++ e2)
+  let r0 := tickCore sc { w with cg := none, tflags := 0 }
+  let r1 := applyRp { r0.1 with tflags := w.tflags }
+  let r2 := tickCore sc r1.1
+  let r3 := if r2.2.contains .tickAbort then morePasses sc maxPass r2.1 else (r2.1, [])
+  (r3.1, r0.2 ++ r1.2 ++ r2.2 ++ r3.2 ++ [.cgAfter r3.1.cg])
 
 /-- top-level commands of a case -/
 inductive Cmd where
@@ -394,7 +443,7 @@ def stepCmd (sc : Scripts) (w : World) : Cmd → World × List Ev
     else if w.dead.contains self then (w, [.topDead self])
     else
       match runOps w self [op] with
-      | (w', evs, .err) => (errorHandler w', evs ++ [.topErr self])
+      | (w', evs, .err) => (errorEntry w', evs ++ [.topErr self])
       | (w', evs, _) => (w', evs)
   | .tflags n => if w.crashed then (w, []) else ({ w with tflags := (n : Int) }, [.tflags (n : Int)])
 
